@@ -69,7 +69,7 @@ func coverageReport(r *eng.Run, fns ...string) {
 		if tot > 0 && hit < tot {
 			// list the states never seen at end of input
 			var miss []int
-			for cs := 1; cs <= tot+1; cs++ {
+			for cs := 1; cs <= tot; cs++ {
 				if verifhook.Seen[fn][cs] == 0 {
 					miss = append(miss, cs)
 				}
